@@ -63,6 +63,17 @@ var baseTree = []srcFile{
 	{path: "src/odd/through-file", link: "a.txt/inner"},
 	{path: "src/odd/dotrel", link: "./a.txt"},
 	{path: "src/odd/doubled", link: "..//odd/a.txt"},
+	// a file whose NAME is a pattern, beside the files the pattern matches
+	{path: "src/g1.txt", mode: 0o644, data: "matched by the pattern g[1].txt", mtime: 1600000060},
+	{path: "src/pat", dir: true, mode: 0o755, mtime: 1600000061},
+	{path: "src/pat/app[12].conf", mode: 0o644, data: "literal", mtime: 1600000062},
+	{path: "src/pat/app1.conf", mode: 0o644, data: "one", mtime: 1600000063},
+	{path: "src/pat/app2.conf", mode: 0o644, data: "two", mtime: 1600000064},
+	// names that begin with a dot, directly in the working directory (patterns without a directory part)
+	{path: ".toprc", mode: 0o644, data: "top", mtime: 1600000070},
+	{path: ".hidden", dir: true, mode: 0o755, mtime: 1600000071},
+	{path: ".hidden/sub", dir: true, mode: 0o755, mtime: 1600000072},
+	{path: ".hidden/sub/x.conf", mode: 0o644, data: "hidden", mtime: 1600000073},
 }
 
 func materialise(root string, tree []srcFile) {
@@ -399,6 +410,11 @@ var c05KindsMore = []entrySpec{
 	{files.TypeFile, "src/odd"},
 	{files.TypeTree, "src/odd"},
 	{files.TypeConfig, "src/odd/self"},
+	{"", "src/pat/app[12].conf"},
+	{files.TypeConfig, "src/g[1].txt"},
+	{"", ".*rc"},
+	{files.TypeConfig, ".*"},
+	{"", ".hidden/**"},
 }
 
 func mkEntry(k entrySpec, dst, pk string, fi int) *files.Content {
@@ -459,6 +475,18 @@ func genC05(tier string, seed int64, w *caseWriter, st *c05Stats) {
 			emit([]*files.Content{mkEntry(a.k, a.dst, a.pk, a.fi), mkEntry(b.k, b.dst, b.pk, b.fi)}, pk, 0o022, fixedMT, false, "p")
 		}
 	}
+	// forced: patterns beside a file of the pattern's own name, dot names in the working directory, packager tags with
+	// punctuation - each alone and next to a plain file, for plain and punctuated packager names
+	for _, k := range []entrySpec{{"", "src/pat/app[12].conf"}, {files.TypeConfig, "src/g[1].txt"}, {"", ".*rc"}, {files.TypeConfig, ".*"}, {"", ".hidden/**"}, {"", "src/f1"}} {
+		for _, d := range []string{"/a", "/a/", "/a/b"} {
+			for _, tag := range []string{"", "termux.deb", "deb,rpm", "deb"} {
+				for _, pk := range []string{"", "deb", "termux.deb", "rpm"} {
+					emit([]*files.Content{mkEntry(k, d, tag, 0)}, pk, 0o022, fixedMT, false, "f")
+					emit([]*files.Content{mkEntry(entrySpec{"", "src/f2"}, "/a/plain", "", 0), mkEntry(k, d, tag, 0)}, pk, 0o022, fixedMT, false, "f")
+				}
+			}
+		}
+	}
 	// triples: seeded sample (quick) / larger sample (thorough)
 	triples := 3000
 	if tier != "quick" {
@@ -480,7 +508,8 @@ func genC05(tier string, seed int64, w *caseWriter, st *c05Stats) {
 		random = 80000
 	}
 	umasks := []fs.FileMode{0, 0o002, 0o022, 0o077}
-	rpk := []string{"", "deb", "rpm", "apk", "ipk", "archlinux", "foo"}
+	// (names with punctuation: a format an embedder registered, or a typo - one name, not a list)
+	rpk := []string{"", "deb", "rpm", "apk", "ipk", "archlinux", "foo", "termux.deb", "deb,rpm", "rpm-deb"}
 	for i := 0; i < random; i++ {
 		ne := 1 + rng.Intn(6)
 		var es []*files.Content
